@@ -247,12 +247,65 @@ def run_table(p, amts):
     return st
 
 
+@guarded('C14')
+def run_temp_closed(w, path, x, st=None):
+    """temperature units the physics oracle does not know (none on the
+    pinned tree): the table must still be closed -- there and back is the
+    identity, through a third unit equals direct, equality is symmetric"""
+    import quantity
+    cls = w.types['Temperature']
+    u0, u1, u2 = (cls.get_unit_by_symbol(s) for s in path)
+    out = []
+    for h in holders(x):
+        q0 = cls(h, u0)
+        try:
+            r1 = q0.convert(u1)
+            back = r1.convert(u0)
+            r2 = r1.convert(u2)
+            direct = q0.convert(u2)
+        except quantity.UnitConversionError:
+            continue
+        if st is not None:
+            st.transitions += 4
+            st.evaluations += 3
+        if O.fr(back.amount) != x:
+            out.append(('C14:temp:closed:round-trip',
+                        f"{x} {path[0]} -> {path[1]} -> {path[0]} = "
+                        f"{back.amount}"))
+        if O.fr(r2.amount) != O.fr(direct.amount):
+            out.append(('C14:temp:closed:via-third',
+                        f"{x} {path[0]} -> {path[1]} -> {path[2]} = "
+                        f"{r2.amount}, direct {direct.amount}"))
+        if not (q0 == r1) or not (r1 == q0) or q0 < r1 or r1 < q0:
+            out.append(('C14:temp:closed:eq',
+                        f"{q0!r} and its own conversion {r1!r} do not "
+                        "compare equal both ways"))
+    return out
+
+
+def temp_units():
+    import quantity.predefined as P
+    return sorted(u.symbol for u in P.Temperature.units())
+
+
 def part_temp(p, amts):
     st = Stats()
     w = World(catalogue=True)
     u0 = p
+    extra = [s for s in temp_units() if s not in TU]
     for code in amts:
         x = O.val(code)
+        for u1 in TU + extra:
+            for u2 in TU + extra:
+                if u0 in TU and u1 in TU and u2 in TU:
+                    continue
+                st.paths += 1
+                st.state(('temp-closed', u0, u1, u2, x), nontrivial=True)
+                for sig, msg in run_temp_closed(w, [u0, u1, u2], x, st):
+                    st.violation(sig, msg, {'temp_closed': [u0, u1, u2],
+                                            'amount': code})
+        if u0 not in TU:
+            continue
         for u1 in TU:
             for u2 in TU:
                 st.paths += 1
@@ -278,6 +331,9 @@ def replay(case):
     if 'temp_path' in case:
         w = World(catalogue=True)
         return run_temp_path(w, case['temp_path'], O.val(case['amount']))
+    if 'temp_closed' in case:
+        w = World(catalogue=True)
+        return run_temp_closed(w, case['temp_closed'], O.val(case['amount']))
     if 'temp_cmp' in case:
         w = World(catalogue=True)
         u0, code, u1, x2 = case['temp_cmp']
@@ -313,7 +369,8 @@ def run(tier, seed):
     amts = amts + ['i:32', 'D:273.15', 'D:-459.67', 'i:-40', 'F:160/9',
                    'D:-273.15']
     amts = list(dict.fromkeys(amts))
-    total.merge(pmap(part_temp, TU, (amts,)))
+    total.merge(pmap(part_temp, list(dict.fromkeys(TU + temp_units())),
+                     (amts,)))
     w = World(catalogue=True)
     for fp in FIXED:
         total.paths += 1
